@@ -34,7 +34,17 @@ def main():
         mod = importlib.import_module('harness.checks.' + a.prop)
         chk = Check(a.prop, a.tier, seed, level=getattr(mod, 'LEVEL', 'proof'))
         chk.proof_side()
-        search = mod.run(chk)
+        try:
+            search = mod.run(chk)
+        except Infra:
+            raise
+        except Exception:  # noqa
+            # a suite of the harness itself fell over on this tree (e.g. the code under test grew an interface the scripted stand-ins
+            # do not have): the tie is broken — reported as such, with whatever the suites that did run have found
+            tb = traceback.format_exc()
+            print(tb[-1500:], file=sys.stderr)
+            chk.broken.append({'kind': 'correspondence', 'what': 'a harness suite could not be run against this tree', 'detail': tb[-1500:]})
+            search = None
         return chk.finish(search=search)
     except Infra as e:
         print(f'[{a.prop}] infrastructure problem: {e}', file=sys.stderr)
